@@ -373,6 +373,30 @@ def jkey(o):
     return json.dumps(o, sort_keys=True)
 
 
+def ctor_reading(o, built):
+    """C18's vocabulary read on the constructors: `market_*` is an immediate-or-cancel limit, `limit_*` a good-till-cancel
+    one, `stop_*` a stop-loss trigger, `takeprofit_*` a take-profit trigger, `*_buy` buys and `*_sell` sells, for the asset,
+    size and price given. -> failure text or None (is_market / reduce_only / cloid are the constructor's own business)"""
+    c = o["ctor"]
+    want_buy = c.endswith("buy")
+    ot = built["order_type"]
+    if built["is_buy"] != want_buy:
+        return "Order::%s built a %s order" % (c, "buy" if built["is_buy"] else "sell")
+    if c.startswith("market") and ot != dict(Limit=dict(tif="Ioc")):
+        return "Order::%s did not build an immediate-or-cancel limit order: %s" % (c, ot)
+    if c.startswith("limit") and ot != dict(Limit=dict(tif="Gtc")):
+        return "Order::%s did not build a good-till-cancel limit order: %s" % (c, ot)
+    if c.startswith("stop") and ("Trigger" not in ot or ot["Trigger"]["tpsl"] != "Sl"):
+        return "Order::%s did not build a stop-loss trigger order: %s" % (c, ot)
+    if c.startswith("takeprofit") and ("Trigger" not in ot or ot["Trigger"]["tpsl"] != "Tp"):
+        return "Order::%s did not build a take-profit trigger order: %s" % (c, ot)
+    if built["asset"] != o["asset"] or built["limit_px"] != o["limit_px"] or built["sz"] != o["sz"]:
+        return "Order::%s changed the asset, size or price it was given" % c
+    if "Trigger" in ot and built.get("limit_px_parsed") is not None and ot["Trigger"]["trigger_px"] != built["limit_px_parsed"]:
+        return "Order::%s: the trigger price is not the price given" % c
+    return None
+
+
 def jura_steps(sc, tr):
     terms, steps = [], []
     for k, r in enumerate(tr["results"]):
@@ -386,6 +410,10 @@ def jura_steps(sc, tr):
                 break
             gop = gc("Insert", g_jorder(r["inserted"]))
             gobs = "ObsUnit"
+            if "ctor" in op["order"]:
+                bad = ctor_reading(op["order"], r["inserted"])
+                if bad:
+                    sc.setdefault("_ctor_failures", []).append(dict(step=k, what=bad, order=op["order"], built=r["inserted"]))
         elif op["op"] == "delete":
             gop = gc("Delete", gt(gn(op["asset"]), gn(op["id"])))
             gobs = "ObsPanic" if panic else "ObsUnit"
@@ -879,6 +907,19 @@ def run_property(res, prop, tier, seed, replay, prop_files):
         t, s = (uist_steps if sc["kind"] == "uist" else jura_steps)(sc, tr)
         terms.append(t)
         steps.append(s)
+    if prop == "C18":
+        # the model takes a constructed order as the code built it, so what each named constructor builds is read
+        # directly (always; it is a reading of the property's vocabulary, not a comparison with the model)
+        for sc in scs:
+            for f in sc.pop("_ctor_failures", [])[:1]:
+                res.violation(dict(kind="property-fails-on-implementation", component="exchange", found_in="constructor reading",
+                                   failure=f, scenario=dict(kind="jura", ops=[sc["ops"][f["step"]]])), "violation")
+                break
+            else:
+                continue
+            break
+    for sc in scs:
+        sc.pop("_ctor_failures", None)
     u_idx = [i for i, sc in enumerate(scs) if sc["kind"] == "uist"]
     j_idx = [i for i, sc in enumerate(scs) if sc["kind"] == "jura"]
     cache = {}
